@@ -12,13 +12,26 @@ TSAN_ENV = {"TSAN_OPTIONS": "halt_on_error=1:exitcode=66:history_size=4:second_d
             "TSAN_SYMBOLIZER_PATH": "/usr/bin/llvm-symbolizer-14"}
 
 
+# sensitivity runs: VERIF_SCRATCH_VARIANTS=tsan takes only the build under test from the tagged scratch
+# tree; the positive control then uses the regular tsan0 build of /repo
+_TAG = os.environ.get("VERIF_BUILD_TAG", "")
+_SCRATCH = [v for v in os.environ.get("VERIF_SCRATCH_VARIANTS", "").split(",") if v] if _TAG else []
+
+
+def _driver(variant, timeout):
+    d = Driver(variant, "thr", timeout, env=TSAN_ENV)
+    if _SCRATCH and variant not in _SCRATCH:
+        d.path = os.path.join(engine.BUILD, variant, "drv", "thr")
+    return d
+
+
 class Pair:
     """the two harness processes (thread-safe build under test, non-thread-safe control) behind the
     interface the engine expects of `Check.drv`"""
 
     def __init__(self, timeout):
-        self.tsan = Driver("tsan", "thr", timeout, env=TSAN_ENV)
-        self.tsan0 = Driver("tsan0", "thr", timeout, env=TSAN_ENV)
+        self.tsan = _driver("tsan", timeout)
+        self.tsan0 = _driver("tsan0", timeout)
 
     def stop(self):
         self.tsan.stop()
@@ -71,7 +84,7 @@ class C41(Check):
     pid = "C41"
     variant = "tsan"
     exe = "thr"
-    builds = [("tsan", ("thr",)), ("tsan0", ("thr",))]
+    builds = [(v, ("thr",)) for v in ("tsan", "tsan0") if not _SCRATCH or v in _SCRATCH]
     rule = ("A case is (pool program, T per-thread instruction lists), T = 2..8. The pool (2-9 expressions over x,y,z, "
             "small and multi-limb integers, rationals, pi/E/I, + - * / **, elementary functions, undefined functions, "
             "PrimePi/Primorial of a symbol; later elements reference earlier ones, so sub-structure is shared) is built "
@@ -102,6 +115,8 @@ class C41(Check):
         self.ctl_gen = [0, 0]  # sampled, raced
 
     def sieve_allowed(self):
+        if os.environ.get("C41_DEV_TAGS"):
+            return "sieve_not_thread_safe" not in os.environ["C41_DEV_TAGS"].split(",")
         return not self.tag_active("sieve_not_thread_safe")
 
     def strategy(self, tier):
